@@ -284,7 +284,13 @@ class DataPath:
         ):
             return DataPath(*self.parts, other)
         elif isinstance(other, DataPath):
-            return DataPath(*self.parts, *other.parts)
+            # the appended path keeps how it reads the data it selects (e.g. `.length()`):
+            return DataPath(
+                *self.parts,
+                *other.parts,
+                datum_type=other.DATUM_TYPE,
+                multi_type=other.MULTI_TYPE,
+            )
 
     def __rtruediv__(self, other):
         return self.__class__(other) / self
